@@ -3,7 +3,7 @@ use crate::{
     error::SourceRange,
     token::{BOOLEAN_KEYWORD, FALSE_KEYWORD, INTEGER_KEYWORD, TRUE_KEYWORD, TYPE_KEYWORD},
 };
-use num_bigint::BigInt;
+use num_bigint::{BigInt, Sign};
 use std::{
     cell::RefCell,
     collections::HashSet,
@@ -178,6 +178,9 @@ fn group(term: &Term) -> String {
                 format!("{term}")
             }
         }
+        // A negative literal (which can only arise from evaluation) starts with a minus sign, so
+        // it needs parentheses just like a negation does.
+        Variant::IntegerLiteral(integer) if integer.sign() == Sign::Minus => format!("({term})"),
         Variant::Type
         | Variant::Variable(_, _)
         | Variant::Integer
